@@ -114,6 +114,14 @@ def gen_c04(rng, tier):
                         case.append("read %s 0x%x %d 1" % (k, (pe.image_base + s.va) & ((1 << pe.bits) - 1), mn))
             for i in range(len(pe.sections) + 1):
                 case.append("secbytes %s %d" % (k, i))
+            # "a request for more bytes than that never succeeds": typed arrays whose elements are larger than
+            # their alignment (8/4, 40/4, 16/1), requested a few bytes before the end of the stored bytes
+            for s in pe.sections:
+                for ty, sz in (("dd", 8), ("sh", 40), ("b16", 16)):
+                    for ln in (1, 2, 3):
+                        for back in (sz * ln, sz * ln - 4, sz * ln - sz // 2):
+                            if 0 < back <= s.rs:
+                                case.append("derva_slice %s %s 0x%x %d" % (k, ty, (s.va + s.rs - back) & U32, ln))
         # the same table seen as a mapped view (get_section_bytes on views; the header-arithmetic conversions
         # `rva_to_file_offset` / `file_offset_to_rva` are offered by views as well)
         kv = "v%d" % pe.bits
@@ -510,6 +518,56 @@ def slice_f_preds(rng, pe, r, w, k=2):
 
 # (min_size, align) with min != align: an implementation that confuses the two arguments answers differently
 MIN_ALIGN = [(8, 1), (1, 8), (3, 2), (2, 4), (16, 2), (4, 1), (1, 4), (0, 8), (5, 4), (32, 16)]
+
+
+def gen_partial_slot(rng, tier):
+    """Unterminated sentinel arrays that end in a PARTIAL slot: the window's length is not a multiple of the
+    element size while its start is aligned (stored bytes ending at an address that is size/2 mod size).  The
+    buffer sits flush against the trailing guard page, so reading the partial slot as a whole element faults."""
+    cases = []
+    for n in range(12 if tier == "quick" else 200):
+        pe = simple_pe(rng, nsec=rng.choice([1, 2]))
+        for s in pe.sections:
+            if s.rs:
+                s.data = bytes(rng.randrange(1, 256) for _ in range(len(s.data or b"") or s.rs))   # no zero anywhere
+        data = pe.build()
+        view = load_view(pe, data)
+        lay = pe.layout
+        for w in (2, 4, 8):
+            t = "u%d" % (8 * w)
+            # mapped view cut so that its length is w/2 modulo w, the array starts one and a half slots before the end
+            if view is not None:
+                secs = [s for s in pe.sections if s.rs >= 64 and s.vs >= 64]
+                if secs:
+                    s = secs[-1]
+                    L = s.va + 40
+                    L = L - (L % w) + w // 2
+                    if lay["size_of_headers"] < L <= len(view):
+                        buf = bytearray(view[:L])
+                        for i in range(L - 3 * w, L):
+                            buf[i] = buf[i] or 0x5A
+                        k = "v%d" % pe.bits
+                        start = L - (w + w // 2)
+                        cases.append([img_line(rng, bytes(buf), rng.choice([0, 8]), "e"), "from_bytes " + k,
+                                      "derva_slice_s %s %s 0x%x 0" % (k, t, start), "deref_slice_s %s %s 0x%x 0" % (k, t, pe.image_base + start),
+                                      "derva_slice_f %s %s 0x%x ge:0xffffffffffffffff" % (k, t, start), "deref_slice_f %s %s 0x%x count:5" % (k, t, pe.image_base + start),
+                                      "derva_slice_s %s %s 0x%x 0" % (k, t, start - w), "deref_slice_s %s %s 0x%x 0" % (k, t, pe.image_base + start - w)])
+            # file whose last section's raw data (= end of the file) ends w/2 modulo w
+            s = pe.sections[-1]
+            if s.rs >= 64 and s.vs >= s.rs and s.prd + s.rs == len(data):
+                cut = s.rs - (s.rs % w) - w // 2
+                pe2_len = s.prd + cut
+                old_rs, old_len = s.rs, pe.file_len
+                s.rs, pe.file_len = cut, pe2_len
+                d2 = pe.build()
+                s.rs, pe.file_len = old_rs, old_len
+                k = "f%d" % pe.bits
+                start = s.va + cut - (w + w // 2)
+                if (s.prd + cut - (w + w // 2)) % w == 0 and start % w == 0:
+                    cases.append([img_line(rng, d2, rng.choice([0, 8]), "e"), "from_bytes " + k,
+                                  "derva_slice_s %s %s 0x%x 0" % (k, t, start), "deref_slice_s %s %s 0x%x 0" % (k, t, pe.image_base + start),
+                                  "deref_slice_f %s %s 0x%x count:5" % (k, t, pe.image_base + start)])
+    return cases
 
 
 def gen_c05(rng, tier):
